@@ -238,7 +238,7 @@ func readCorpusFile(path string) ([]byte, uint8, bool) {
 // large generated files) in all modes.
 func fuzzSeedInputs() (out []Case) {
 	for _, s := range loadSeeds() {
-		if len(s.Data) > maxSeedLen {
+		if len(s.Data) > maxSeedLen || s.NoMutate {
 			continue
 		}
 		for mode := 0; mode < 3; mode++ {
